@@ -32,6 +32,9 @@ T5 == << D(<<43>>,  0,  TRUE),
 (* T5c: call-form table: alphabetic binaries f (0, non-comm), g (50, comm), symbolic * (50, comm),   *)
 (* dual - (0, non-comm), unary u.                                                                       *)
 T5c == << B(<<102>>, 0, FALSE), B(<<103>>, 50, TRUE), B(<<42>>, 50, TRUE), D(<<45>>, 0, FALSE), U(<<117>>) >>
+(* TChain: eight non-commutative binary operators with pairwise distinct priorities (C14).            *)
+TChain == << B(<<33>>, 10, FALSE), B(<<35>>, 20, FALSE), B(<<36>>, 30, FALSE), B(<<37>>, 40, FALSE),
+             B(<<38>>, 50, FALSE), B(<<42>>, 60, FALSE), B(<<47>>, 70, FALSE), B(<<58>>, 80, FALSE) >>
 (* T3: minimal table for 5-leaf bounds: + (0, comm), mn (0, non-comm), * (50, comm).                   *)
 T3 == << B(<<43>>,       0,  TRUE),
          B(<<109, 110>>, 0,  FALSE),
